@@ -522,6 +522,83 @@ void add_s6c(mc::Runner &R, const std::string &name, int W, int H, int K, bool q
   R.add(s);
 }
 
+// ------------------------------------------------------------------ S10: unusual attribute layouts
+// (a) two attributes of type POSITION (base shape + second position set) in every order with a third attribute;
+// (b) attribute counts around the 8-bit limits of the per-attribute-connectivity bitstream fields.
+void add_s10(mc::Runner &R, const std::string &name, bool quick, bool thorough) {
+  static const int kCounts[8] = {2, 127, 128, 129, 130, 255, 256, 257};
+  // (cfg 5: eb std s0, eb std s5, eb valence s3, eb std s7 (single connectivity), sequential s5) x (topology 3) x
+  // (layout 3 + 8: P P / P G P / G P P, then N generic attributes next to one position)
+  mc::Radix rx{5, 3, 11};
+  auto make = [=](uint64_t idx, GeomDef *g, EncCfg *c, std::string *d) {
+    auto dg = rx.decode(idx);
+    g->is_mesh = true;
+    static const std::vector<std::array<int, 3>> topo[3] = {{{0, 1, 2}}, {{0, 1, 2}, {0, 2, 3}}, {{0, 1, 2}, {0, 3, 4}}};
+    g->faces = topo[dg[1]];
+    g->num_points = dg[1] == 2 ? 5 : dg[1] == 1 ? 4 : 3;
+    auto pos = [&](uint32_t uid, int variant) {
+      AttDef a;
+      a.type = GeometryAttribute::POSITION;
+      a.dt = DT_FLOAT32;
+      a.nc = 3;
+      a.uid = uid;
+      for (int i = 0; i < g->num_points; ++i)
+        a.entries.push_back(bytes_of(std::vector<float>{(float)(i % 3) + variant * 0.5f, (float)(i / 2) - variant, variant ? (float)(i * i) : 0.f}));
+      if (variant == 2) {  // one more value entry than the first position attribute: points 0 and 1 no longer share...
+        a.entries.push_back(bytes_of(std::vector<float>{9.f, 9.f, 9.f}));
+        for (int i = 0; i < g->num_points; ++i) a.map.push_back(i == 0 ? (int)a.entries.size() - 1 : i);
+      }
+      return a;
+    };
+    auto gen = [&](uint32_t uid) {
+      AttDef a;
+      a.type = GeometryAttribute::GENERIC;
+      a.dt = DT_UINT8;
+      a.nc = 1;
+      a.uid = uid;
+      for (int i = 0; i < g->num_points; ++i) a.entries.push_back(bytes_of(std::vector<uint8_t>{(uint8_t)(i * 37 + uid)}));
+      return a;
+    };
+    std::string lay;
+    if (dg[2] == 0) { g->atts = {pos(0, 0), pos(1, 1)}; lay = "POSITION POSITION"; }
+    else if (dg[2] == 1) { g->atts = {pos(0, 0), gen(5), pos(1, 2)}; lay = "POSITION GENERIC POSITION(with an extra value entry)"; }
+    else if (dg[2] == 2) { g->atts = {gen(5), pos(0, 0), pos(1, 1)}; lay = "GENERIC POSITION POSITION"; }
+    else {
+      const int n = kCounts[dg[2] - 3];
+      g->atts = {pos(0, 0)};
+      for (int i = 1; i < n; ++i) g->atts.push_back(gen(i));
+      lay = std::to_string(n) + " attributes (1 position + generic uint8)";
+    }
+    static const int mk[5] = {2, 2, 3, 2, 0}, sp[5] = {0, 5, 3, 7, 5};
+    *c = gs::mesh_cfg(mk[dg[0]], sp[dg[0]]);
+    c->qbits.assign(g->atts.size(), 0);
+    for (size_t i = 0; i < g->atts.size(); ++i)
+      if (g->atts[i].type == GeometryAttribute::POSITION) c->qbits[i] = 10;
+    if (d) *d = lay + ", " + std::to_string(g->faces.size()) + " faces";
+  };
+  mc::Space s;
+  s.name = name;
+  s.size = rx.size();
+  s.quick = quick;
+  s.thorough = thorough;
+  s.run = [=](uint64_t idx, mc::Ctx &ctx) {
+    GeomDef g;
+    EncCfg c;
+    make(idx, &g, &c, nullptr);
+    auto r = rt::check_roundtrip(g, c, ctx, "", !g_c09, g_c09);
+    ctx.count(r.decoded ? "unusual_layouts_round_tripped" : "unusual_layouts_refused_by_encoder");
+    ctx.nontrivial_unique();
+  };
+  s.describe = [=](uint64_t idx) {
+    GeomDef g;
+    EncCfg c;
+    std::string d;
+    make(idx, &g, &c, &d);
+    return d + " " + text(c);
+  };
+  R.add(s);
+}
+
 // ------------------------------------------------------------------ S9: point clouds with clusters of coincident points and explicit point->value maps
 // kd-tree cells stop splitting when all axes are exhausted (>= 64 coincident points take a special path); attributes whose
 // point->value map is not the identity (deduplicated or permuted storage) must still give every point its own values.
@@ -1314,6 +1391,7 @@ int main(int argc, char **argv) {
       add_s3(R, "asan_S3", t, false, true, true);
       add_s7(R, "asan_S7_attribute_order_and_ids", true, true);
       add_s9(R, "asan_S9_clustered_clouds_and_point_maps", true, true);
+      add_s10(R, "asan_S10_unusual_attribute_layouts", true, true);
       add_s8(R, "asan_S8_full_range_grids", {4, 8}, true, true);
       add_s8(R, "asan_S8_full_range_grids_12_24", {12, 24}, false, true);
       add_s4(R, "asan_S4_N3", 3, {0, 4, 10}, true, false);
